@@ -179,3 +179,78 @@ fn kx_hex_wrappers_and_empty() {
     }
     core::mem::forget(m);
 }
+
+// @ob props=C15 tier=quick kind=Kstruct bound="sink of 16 chars; one arbitrary byte; format specs {:4?} {:.0?} / {:.0x} {:6X}" timeout=1800 fns=Debug_for_BytesRef::fmt,Debug_for_Bytes::fmt,LowerHex_for_Bytes::fmt,UpperHex_for_Bytes::fmt
+#[kani::proof]
+#[kani::unwind(18)]
+fn kx_fmt_spec_flags_do_not_change_the_output() {
+    // "always a valid literal that decodes to exactly the contents" / "exactly two digits per
+    // byte" hold for EVERY format spec: width, precision, fill/alignment, `#` and `0` reach the
+    // impls through the Formatter (e.g. a derived Debug forwards them) and must not pad, truncate
+    // or otherwise alter the rendering (seeds C15-5, C15-6).
+    let x: u8 = kani::any();
+    let arr = [x];
+    let st: &'static [u8; 1] = unsafe { &*(&arr as *const [u8; 1]) };
+    let b = Bytes::from_static(&st[..]);
+    let mut s = Sink { buf: [0; 16], n: 0 };
+    let which: u8 = kani::any();
+    kani::assume(which == 0 || which == 4 || which == 5 || which == 7);
+    let r = match which {
+        0 => core::fmt::write(&mut s, format_args!("{:4?}", b)),
+        4 => core::fmt::write(&mut s, format_args!("{:.0?}", b)),
+        5 => core::fmt::write(&mut s, format_args!("{:.0x}", b)),
+        _ => core::fmt::write(&mut s, format_args!("{:6X}", b)),
+    };
+    assert!(r.is_ok());
+    if which <= 4 {
+        let (e, el) = esc(x);
+        assert!(s.n == 3 + el && s.buf[0] == b'b' && s.buf[1] == b'"' && s.buf[s.n - 1] == b'"');
+        let k: usize = kani::any();
+        if k < el { assert!(s.buf[2 + k] == e[k]); }
+    } else {
+        let upper = which >= 7;
+        let d = |v: u8| if upper { upper_digit(v) } else { lower_digit(v) };
+        assert!(s.n == 2 && s.buf[0] == d(x >> 4) && s.buf[1] == d(x & 15));
+    }
+    kani::cover!(which == 0 && x == b'a');
+    kani::cover!(which == 7);
+}
+
+// @ob props=C15 tier=thorough kind=Kstruct bound="sink of 16 chars; one arbitrary byte; format specs {:4?} {:.0?} {:<6.1?} {:#?} {:04?} / {:.0x} {:6x} {:#X}" timeout=1800 fns=Debug_for_BytesRef::fmt,Debug_for_Bytes::fmt,LowerHex_for_Bytes::fmt,UpperHex_for_Bytes::fmt
+#[kani::proof]
+#[kani::unwind(18)]
+fn kx_fmt_spec_flags_do_not_change_the_output_all() {
+    // "always a valid literal that decodes to exactly the contents" / "exactly two digits per
+    // byte" hold for EVERY format spec: width, precision, fill/alignment, `#` and `0` reach the
+    // impls through the Formatter (e.g. a derived Debug forwards them) and must not pad, truncate
+    // or otherwise alter the rendering (seeds C15-5, C15-6).
+    let x: u8 = kani::any();
+    let arr = [x];
+    let st: &'static [u8; 1] = unsafe { &*(&arr as *const [u8; 1]) };
+    let b = Bytes::from_static(&st[..]);
+    let mut s = Sink { buf: [0; 16], n: 0 };
+    let which: u8 = kani::any();
+    let r = match which {
+        0 => core::fmt::write(&mut s, format_args!("{:4?}", b)),
+        1 => core::fmt::write(&mut s, format_args!("{:.0?}", b)),
+        2 => core::fmt::write(&mut s, format_args!("{:<6.1?}", b)),
+        3 => core::fmt::write(&mut s, format_args!("{:#?}", b)),
+        4 => core::fmt::write(&mut s, format_args!("{:04?}", b)),
+        5 => core::fmt::write(&mut s, format_args!("{:.0x}", b)),
+        6 => core::fmt::write(&mut s, format_args!("{:6x}", b)),
+        _ => core::fmt::write(&mut s, format_args!("{:#X}", b)),
+    };
+    assert!(r.is_ok());
+    if which <= 4 {
+        let (e, el) = esc(x);
+        assert!(s.n == 3 + el && s.buf[0] == b'b' && s.buf[1] == b'"' && s.buf[s.n - 1] == b'"');
+        let k: usize = kani::any();
+        if k < el { assert!(s.buf[2 + k] == e[k]); }
+    } else {
+        let upper = which >= 7;
+        let d = |v: u8| if upper { upper_digit(v) } else { lower_digit(v) };
+        assert!(s.n == 2 && s.buf[0] == d(x >> 4) && s.buf[1] == d(x & 15));
+    }
+    kani::cover!(which == 2 && x == b'a');
+    kani::cover!(which == 7);
+}
